@@ -1,6 +1,7 @@
 package det
 
 import (
+	"strings"
 	"encoding/json"
 	"fmt"
 	"os"
@@ -54,6 +55,7 @@ type Engine struct {
 	KeepTrace bool
 	lastStep *Step
 	CheckProp string // the property this run is for
+	quotaPreemptionEnabled bool
 	GangStyle map[string]string // application id -> gang scheduling style as submitted (Hard, or Soft for anything else)
 	lastChanged bool
 	barrierTimeout time.Duration
@@ -72,7 +74,7 @@ type History struct {
 }
 
 func NewEngine(c *shim.Core, cfg string) *Engine {
-	e := &Engine{C: c, V: NewView(), Obs: map[string]int64{}, Props: map[string]bool{}, ConfigYAML: cfg, Configs: []string{cfg},
+	e := &Engine{C: c, V: NewView(), Obs: map[string]int64{}, Props: map[string]bool{}, ConfigYAML: cfg, Configs: []string{cfg}, quotaPreemptionEnabled: strings.Contains(cfg, "quotapreemptionenabled: true"),
 		Hist: &History{NodeForced: map[string]bool{}, Preempted: map[string]int{}, AppStates: map[string][]string{}, States: map[string]bool{}},
 		barrierTimeout: 20 * time.Second}
 	return e
@@ -232,6 +234,7 @@ func (e *Engine) exec(o *Op) {
 	case OpReload:
 		if err := c.Reload(o.Config); err == nil {
 			e.Hist.Reloads++
+			e.quotaPreemptionEnabled = strings.Contains(o.Config, "quotapreemptionenabled: true")
 			e.Configs = append(e.Configs, o.Config)
 			e.ConfigYAML = o.Config
 		}
